@@ -18,6 +18,7 @@ type Loaded struct {
 	pkgs  []*packages.Package
 	spkgs []*ssa.Package
 	funcs map[string]*ssa.Function
+	written map[*ssa.Global]bool
 }
 
 func loadRepo(repo string, patterns []string) (*Loaded, error) {
